@@ -165,6 +165,8 @@ def make_jobs(Job, procs, tier, seed, canary_proc, quick_n3=5, thorough_n3_1=12,
     fams4_1 = families(4, 1, rng, 0 if tier == 'quick' else 1)
     for proc in procs:
         pp = dict(xp.get(proc, {}))
+        # the ADF without statements (Adf::default()): one interpretation, the empty one
+        jobs.append(Job('n0-%s' % proc, mod, 'sem_job', dict({'n': 0, 'fam': [], 'proc': proc}, **pp), stop_after_violations=SAV, max_steps=200000))
         if n2: jobs.append(Job('n2-all-%s' % proc, mod, 'sem_job', dict({'n': 2, 'fam': ['sym', 'sym'], 'proc': proc}, **pp), stop_after_violations=SAV))
         if pp.get('branching'):
             # heuristics that fork the search itself (every random draw / every custom choice): concrete 3-statement ADFs from the seed
